@@ -18,6 +18,10 @@ Results of a rotator built with compute=False are judged after rotator.compute()
 Amplitude coordinate: the relations above are scale-covariant, so the field is also presented multiplied by a global factor
 (1e-4, 1e-6, 1e-8; thorough also 1e+6) for every rotator class and power; all tolerances are relative to the field's own scale
 (largest singular value / explained variance / squared covariance of the scaled input).
+
+Missing-data coordinate: the same matrices presented with 1 / 3 fully missing samples and 2 missing samples + a fully missing
+feature column (cross-set: missing in both fields) for every rotator class and power; N in every relation is the number of VALID
+samples, outputs are compared on the valid labels and must be NaN on the re-inserted ones.
 """
 
 from __future__ import annotations
@@ -40,7 +44,8 @@ RULE = (
     "MCA, ComplexCPCCA, ComplexMCA, HilbertCPCCA, HilbertMCA) x spectrum {geometric, near_equal_var} x shape x rotated n_modes in 2..n_modes(base) "
     "x power in 1..4 x compute in {True, False-then-compute()} x field amplitude {1; and 1e-4, 1e-6, 1e-8 (thorough also 1e+6) for every rotator class "
     "x power at the largest n_modes with compute=True: quick on the geometric class and the first configuration of each class, thorough on both "
-    "spectra and every configuration but the off-diagonal alpha grid} (HilbertEOF without padding: n_modes(base) <= floor(n/2), the rank of the analytic "
+    "spectra and every configuration but the off-diagonal alpha grid} x missing-data pattern {none; and, on the same selection at amplitude 1: "
+    "1 or 3 fully missing samples, 2 missing samples + a fully missing feature column (cross-set: 3, and 2+feature, missing in both fields)} (HilbertEOF without padding: n_modes(base) <= floor(n/2), the rank of the analytic "
     "signal); the quick tier takes compute=False only with power in {1,3}, one shape and a stated subset of configurations; the thorough tier runs the "
     "second data pair for everything but the off-diagonal part of the CPCCA alpha grid. A case is non-trivial when both fits returned and the reconstruction, ordering, amplitude, and (power 1) unitarity / "
     "orthonormality relations were all evaluated on non-empty arrays"
@@ -60,7 +65,7 @@ ASSUMPTIONS = [
     "modes of zero variance / zero covariance are not rotated (outside the quantifier): n_modes(base) never exceeds the numerical rank",
     "a base model that itself loses rank when the field is rescaled (outcome skipped:base_lost_rank_at_amplitude) is the base model's matter, not judged here",
 ]
-TALLY_KEYS = ("family", "model", "spec", "power", "compute", "k", "scale")
+TALLY_KEYS = ("family", "model", "spec", "power", "compute", "k", "scale", "gaps")
 TRUSTED = ["statsmodels import shim (cross-set constructors)"]
 MAX_REFUSED_FRACTION = 0.10
 
@@ -193,7 +198,32 @@ def cases(tier, seed):
         for sc in scales:
             amp.append(dict(c, scale=sc))
     out += amp
-    out.sort(key=lambda c: (c["scale"] != 1.0, c["family"] != "single", c["k"], c["power"], not c["compute"]))
+    for c in out:
+        c["gaps"] = "none"
+    # ---- missing-data coordinate: the same catalogue matrix presented with fully missing samples (all-NaN time steps, which the
+    # preprocessor drops before the fit and re-inserts in every public accessor) and a fully missing feature column; the number of
+    # VALID samples is unchanged. Every rotator class x every power, largest k, compute=True, amplitude 1 (cross-set: the samples are
+    # missing in both fields). Same class selection as the amplitude coordinate.
+    gaps_single = ["s1", "s3", "s2f1"]
+    gaps_cross = ["s3", "s2f1"]
+    seen_cls = set()
+    gp = []
+    for c in list(out):
+        if c["scale"] != 1.0 or not c["compute"] or c["reuse"] or c["k"] != c["kbase"] or c["spec"] not in specs:
+            continue
+        if c["family"] == "cross" and c["shape"] != [12, 6]:
+            continue
+        if tier == "quick":
+            key = (c["model"], c["cplx"], c["power"])
+            if key in seen_cls:
+                continue
+            seen_cls.add(key)
+        elif c["model"] == "CPCCA" and c["alpha"][0] != c["alpha"][1]:
+            continue
+        for g in gaps_single if c["family"] == "single" else gaps_cross:
+            gp.append(dict(c, gaps=g))
+    out += gp
+    out.sort(key=lambda c: (c["gaps"] != "none", c["scale"] != 1.0, c["family"] != "single", c["k"], c["power"], not c["compute"]))
     return out
 
 
@@ -204,6 +234,48 @@ def _grid_da(M):
     n, p = M.shape
     nlat, nlon = GRID[p]
     return D.da_grid(M, nlat, nlon, lats=LATS[nlat])
+
+
+GAPS = {"none": (0, 0), "s1": (1, 0), "s3": (3, 0), "s2f1": (2, 1)}  # (fully missing samples, fully missing lon columns)
+
+
+def _present(M, gaps):
+    """DataArray presenting the n x p matrix M with `gaps`, and the labels of its valid cells. Missing samples are EXTRA all-NaN
+    time steps (first / inner / last positions), a missing feature is an EXTRA all-NaN lon column: the valid block is M itself."""
+    import xarray as xr
+
+    da = _grid_da(M)
+    ks, kf = GAPS[gaps]
+    valid = {"time": da.time.values, "lat": da.lat.values, "lon": da.lon.values}
+    if ks == 0 and kf == 0:
+        return da, valid
+    n = M.shape[0]
+    T = n + ks
+    miss = {1: [2], 2: [3, T - 1], 3: [0, 5, T - 1]}[ks]
+    tvalid = np.array([t for t in range(T) if t not in miss])
+    lons = list(da.lon.values) + [float(da.lon.values[-1]) + 30.0 * (j + 1) for j in range(kf)]
+    full = np.full((T, da.sizes["lat"], len(lons)), np.nan, dtype=da.dtype)
+    full[np.ix_(tvalid, np.arange(da.sizes["lat"]), np.arange(da.sizes["lon"]))] = da.values
+    out = xr.DataArray(full, dims=("time", "lat", "lon"), coords={"time": np.arange(T), "lat": da.lat.values, "lon": np.array(lons)}, name="data")
+    valid = {"time": tvalid, "lat": da.lat.values, "lon": da.lon.values}
+    return out, valid
+
+
+def _matrix_fn(case):
+    """Label-keyed flattening. With gaps the public outputs also carry the re-inserted missing labels; those cells must be NaN
+    (they represent nothing) and are dropped before the comparison on the valid labels."""
+    if case.get("gaps", "none") == "none":
+        return D.to_matrix
+
+    def tm(obj, rows, cols, ref):
+        sub = {d: np.asarray(ref[d]) for d in obj.dims if d in ref and d != "mode"}
+        for d, lab in sub.items():
+            extra = [x for x in obj.coords[d].values.tolist() if x not in set(lab.tolist())]
+            if extra and not bool(np.isnan(np.asarray(obj.sel({d: extra}).values, dtype=complex)).all()):
+                raise D.LabelError("finite values at missing %s labels %s" % (d, extra))
+        return D.to_matrix(obj.sel(sub), rows, cols, ref)
+
+    return tm
 
 
 def _cross_pair(n, px, py, spec, cplx, seed):
@@ -328,7 +400,8 @@ def _run_single(case, seed):
     n, p = case["shape"]
     k, power = case["k"], case["power"]
     X = D.make_matrix(n, p, case["spec"], float(case.get("scale", 1.0)), case["cplx"], seed)
-    da = _grid_da(X)
+    da, valid = _present(X, case.get("gaps", "none"))
+    TM = _matrix_fn(case)
     kw = dict(n_modes=case["kbase"], solver="full", random_state=5)
     if case["model"] == "HilbertEOF":
         kw["padding"] = case["padding"]
@@ -350,18 +423,18 @@ def _run_single(case, seed):
             return _not_converged(case, rname, e, np.iscomplexobj(base.data["components"].values))
         raise
 
-    feats = dict(power1=(power == 1), compute=case["compute"], reused_rotator=bool(case.get("reuse")), amplitude="%g" % case.get("scale", 1.0))
+    feats = dict(power1=(power == 1), compute=case["compute"], reused_rotator=bool(case.get("reuse")), amplitude="%g" % case.get("scale", 1.0), gaps=case.get("gaps", "none"))
     V = []
 
     def bad(check, msg, **extra):
         V.append(viol(check, rname, msg, **feats, **extra))
 
-    ref = _ref_of(da, k)
+    ref = dict(valid, mode=np.arange(1, k + 1))
     modes = ref["mode"]
-    S = D.to_matrix(rot.scores(), ["time"], ["mode"], ref)
-    Sn = D.to_matrix(rot.scores(normalized=True), ["time"], ["mode"], ref)
-    C = D.to_matrix(rot.components(), ["lat", "lon"], ["mode"], ref)
-    Cl = D.to_matrix(rot.components(normalized=False), ["lat", "lon"], ["mode"], ref)
+    S = TM(rot.scores(), ["time"], ["mode"], ref)
+    Sn = TM(rot.scores(normalized=True), ["time"], ["mode"], ref)
+    C = TM(rot.components(), ["lat", "lon"], ["mode"], ref)
+    Cl = TM(rot.components(normalized=False), ["lat", "lon"], ["mode"], ref)
     ev = np.asarray(rot.explained_variance().sel(mode=modes).values, dtype=float)
     Rm = np.asarray(rot.data["rotation_matrix"].transpose("mode_m", "mode_n").values)
     ev0 = np.asarray(base.explained_variance().sel(mode=modes).values, dtype=float)
@@ -369,8 +442,8 @@ def _run_single(case, seed):
 
     # (a) reconstruction
     ref_xy = {d: ref[d] for d in ("time", "lat", "lon")}
-    rec = D.to_matrix(rot.inverse_transform(rot.scores()), ["time"], ["lat", "lon"], ref_xy)
-    rec0 = D.to_matrix(base.inverse_transform(base.scores().sel(mode=modes)), ["time"], ["lat", "lon"], ref_xy)
+    rec = TM(rot.inverse_transform(rot.scores()), ["time"], ["lat", "lon"], ref_xy)
+    rec0 = TM(base.inverse_transform(base.scores().sel(mode=modes)), ["time"], ["lat", "lon"], ref_xy)
     Xc = X - X.mean(axis=0, keepdims=True)
     sref = np.linalg.svd(Xc, compute_uv=False)
     scale = max(sref[0], 1e-300)
@@ -416,14 +489,14 @@ def _run_single(case, seed):
             bad("variance_sum_conserved", "sum rotated %.12g vs sum unrotated %.12g (numpy %.12g)" % (ev.sum(), ev0.sum(), lam.sum()))
         # (e)
         if real_loadings:
-            C0 = D.to_matrix(base.components().sel(mode=modes), ["lat", "lon"], ["mode"], ref)
+            C0 = TM(base.components().sel(mode=modes), ["lat", "lon"], ["mode"], ref)
             L0 = C0 * np.sqrt(ev0)[None, :]
             c1, c0 = _varimax_criterion(Cl), _varimax_criterion(L0)
             if not c1 >= c0 - TOL * max(1.0, abs(c0)):
                 bad("varimax_criterion", "criterion after %.12g < before %.12g" % (c1, c0))
 
     perm = np.asarray(rot.data["idx_modes_sorted"].values).tolist()
-    info = dict(k=k, family="single", power1=(power == 1), compute=case["compute"], perm_nonidentity=perm != list(range(k)), real_loadings=bool(real_loadings), amplitude="%g" % case.get("scale", 1.0))
+    info = dict(k=k, family="single", power1=(power == 1), compute=case["compute"], perm_nonidentity=perm != list(range(k)), real_loadings=bool(real_loadings), amplitude="%g" % case.get("scale", 1.0), gaps=case.get("gaps", "none"))
     return _finish(V, info, S.size > 0 and C.size > 0 and rec.size > 0)
 
 
@@ -435,7 +508,8 @@ def _run_cross(case, seed):
     k, power = case["k"], case["power"]
     X, Y = _cross_pair(n, px, py, case["spec"], case["cplx"], seed)
     X, Y = X * float(case.get("scale", 1.0)), Y * float(case.get("scale", 1.0))
-    da, db = _grid_da(X), _grid_da(Y)
+    (da, validx), (db, validy) = _present(X, case.get("gaps", "none")), _present(Y, case.get("gaps", "none"))
+    TM = _matrix_fn(case)
     kw = dict(n_modes=case["kbase"], solver="full", random_state=5, use_pca=case["use_pca"])
     if case["use_pca"]:
         kw["n_pca_modes"] = case["n_pca"]
@@ -460,23 +534,23 @@ def _run_cross(case, seed):
         raise
 
     a = case["alpha"] if case["alpha"] is not None else [1.0, 1.0]
-    feats = dict(power1=(power == 1), compute=case["compute"], alpha_lt_1=bool(min(a) < 1.0), use_pca=bool(case["use_pca"]), reused_rotator=bool(case.get("reuse")), amplitude="%g" % case.get("scale", 1.0))
+    feats = dict(power1=(power == 1), compute=case["compute"], alpha_lt_1=bool(min(a) < 1.0), use_pca=bool(case["use_pca"]), reused_rotator=bool(case.get("reuse")), amplitude="%g" % case.get("scale", 1.0), gaps=case.get("gaps", "none"))
     V = []
 
     def bad(check, msg, **extra):
         V.append(viol(check, rname, msg, **feats, **extra))
 
-    rx, ry = _ref_of(da, k), _ref_of(db, k)
+    rx, ry = dict(validx, mode=np.arange(1, k + 1)), dict(validy, mode=np.arange(1, k + 1))
     modes = rx["mode"]
     s1, s2 = rot.scores()
-    S1 = D.to_matrix(s1, ["time"], ["mode"], rx)
-    S2 = D.to_matrix(s2, ["time"], ["mode"], ry)
+    S1 = TM(s1, ["time"], ["mode"], rx)
+    S2 = TM(s2, ["time"], ["mode"], ry)
     n1, n2 = rot.scores(normalized=True)
-    N1 = D.to_matrix(n1, ["time"], ["mode"], rx)
-    N2 = D.to_matrix(n2, ["time"], ["mode"], ry)
+    N1 = TM(n1, ["time"], ["mode"], rx)
+    N2 = TM(n2, ["time"], ["mode"], ry)
     l1, l2 = rot.components(normalized=False)
-    L1 = D.to_matrix(l1, ["lat", "lon"], ["mode"], rx)
-    L2 = D.to_matrix(l2, ["lat", "lon"], ["mode"], ry)
+    L1 = TM(l1, ["lat", "lon"], ["mode"], rx)
+    L2 = TM(l2, ["lat", "lon"], ["mode"], ry)
     sq = np.asarray(rot.data["squared_covariance"].sel(mode=modes).values, dtype=float)
     Rm = np.asarray(rot.data["rotation_matrix"].transpose("mode_m", "mode_n").values)
     # pattern norms in the (whitened) space the scores pair with: unit by the model's convention; used so that the
@@ -486,8 +560,8 @@ def _run_cross(case, seed):
     qn = np.sqrt((np.abs(q1) ** 2).sum(axis=0) * (np.abs(q2) ** 2).sum(axis=0))
 
     b1, b2 = base.scores()
-    B1 = D.to_matrix(b1.sel(mode=modes), ["time"], ["mode"], rx)
-    B2 = D.to_matrix(b2.sel(mode=modes), ["time"], ["mode"], ry)
+    B1 = TM(b1.sel(mode=modes), ["time"], ["mode"], rx)
+    B2 = TM(b2.sel(mode=modes), ["time"], ["mode"], ry)
     sig = np.abs(np.sum(B1.conj() * B2, axis=0)) / (n - 1)  # covariance carried by the unrotated modes
     scale_sq = max((sig**2).max(), 1e-300)
 
@@ -497,8 +571,8 @@ def _run_cross(case, seed):
     recX, recY = rot.inverse_transform(X=s1, Y=s2)
     recX0, recY0 = base.inverse_transform(X=b1.sel(mode=modes), Y=b2.sel(mode=modes))
     for nm, r_, r0_, rr, M in (("X", recX, recX0, rxy, X), ("Y", recY, recY0, ryy, Y)):
-        A = D.to_matrix(r_, ["time"], ["lat", "lon"], rr)
-        A0 = D.to_matrix(r0_, ["time"], ["lat", "lon"], rr)
+        A = TM(r_, ["time"], ["lat", "lon"], rr)
+        A0 = TM(r0_, ["time"], ["lat", "lon"], rr)
         scale = max(np.linalg.svd(M - M.mean(axis=0, keepdims=True), compute_uv=False)[0], 1e-300)
         e = D.relerr(A, A0, scale=scale)
         if not e <= TOL:
@@ -533,15 +607,15 @@ def _run_cross(case, seed):
         # (e)
         if real_loadings:
             c1_, c2_ = base.components()
-            C1 = D.to_matrix(c1_.sel(mode=modes), ["lat", "lon"], ["mode"], rx)
-            C2 = D.to_matrix(c2_.sel(mode=modes), ["lat", "lon"], ["mode"], ry)
+            C1 = TM(c1_.sel(mode=modes), ["lat", "lon"], ["mode"], rx)
+            C2 = TM(c2_.sel(mode=modes), ["lat", "lon"], ["mode"], ry)
             L0 = np.concatenate([C1, C2], axis=0) * np.sqrt(sig)[None, :]
             c1, c0 = _varimax_criterion(L), _varimax_criterion(L0)
             if not c1 >= c0 - TOL * max(1.0, abs(c0)):
                 bad("varimax_criterion", "criterion after %.12g < before %.12g" % (c1, c0))
 
     perm = np.asarray(rot.data["idx_modes_sorted"].values).tolist()
-    info = dict(k=k, family="cross", power1=(power == 1), compute=case["compute"], perm_nonidentity=perm != list(range(k)), real_loadings=bool(real_loadings), amplitude="%g" % case.get("scale", 1.0))
+    info = dict(k=k, family="cross", power1=(power == 1), compute=case["compute"], perm_nonidentity=perm != list(range(k)), real_loadings=bool(real_loadings), amplitude="%g" % case.get("scale", 1.0), gaps=case.get("gaps", "none"))
     return _finish(V, info, S1.size > 0 and S2.size > 0 and L.size > 0)
 
 
@@ -578,6 +652,12 @@ def vacuity(outcomes, results, tier):
             for p1 in (True, False):
                 if not any(r["info"].get("amplitude") == a and r["info"].get("family") == fam and r["info"].get("power1") == p1 for r in judged):
                     return "no %s-set rotation with power %s judged at amplitude %s" % (fam, "1" if p1 else ">1", a)
+    # missing-data coordinate: every enumerated gap pattern judged in the families it is enumerated for, at power 1 and >1
+    for fam, pats in (("single", ("s1", "s3", "s2f1")), ("cross", ("s3", "s2f1"))):
+        for g in pats:
+            for p1 in (True, False):
+                if not any(r["info"].get("gaps") == g and r["info"].get("family") == fam and r["info"].get("power1") == p1 for r in judged):
+                    return "no %s-set rotation with power %s judged on input with gap pattern %s" % (fam, "1" if p1 else ">1", g)
     return None
 
 
